@@ -66,29 +66,30 @@ Section Cache.
 End Cache.
 
 (* ---- the CALLER overwrites, in place, arrays it was handed ----
-   A call may be followed by such an overwrite, given as the effect g it would have on the cache IF the returned arrays are
-   the cache itself or a view of it.  In AreaDefinition.get_lonlats the numpy result aliases self.lons exactly when the
-   cache is set after the call (it was returned from the cache, or it has just been stored); get_lonlat returns Python
-   floats and colrow2lonlat never touches the cache. *)
+   A call may be followed by such an overwrite, given as the effect g it would have on the cache IF the returned arrays were
+   the cache itself or a view of it.  AreaDefinition.get_lonlats stores and hands out COPIES (fix 0014900f), so nothing the
+   caller holds aliases the object: [alias = false] is the code.  [alias = true] is the earlier behaviour (the numpy result
+   was self.lons or a view of it exactly when the cache is set after the call).  get_lonlat returns Python floats and
+   colrow2lonlat never touches the cache. *)
 Section Mutation.
   Context {T : Type} (OP : ops T) (invT invP : T * T -> T * T) (a : area T).
   Inductive c01_mop := MCall (op : c01_op) (overwrite : option (list (list (T * T)) -> list (list (T * T)))).
   Definition c01_mop_op (m : c01_mop) : c01_op := match m with MCall op _ => op end.
 
-  Definition c01_mstep (st : option (list (list (T * T)))) (m : c01_mop) : option (list (list (T * T))) * list (list (T * T)) :=
+  Definition c01_mstep (alias : bool) (st : option (list (list (T * T)))) (m : c01_mop) : option (list (list (T * T))) * list (list (T * T)) :=
     match m with
     | MCall op ow =>
         let '(st', o) := c01_step OP invT invP a false st op in
         let st'' := match ow, op, st' with
-                    | Some g, OpLonlats _ _ _, Some c => Some (g c)       (* the caller's arrays ARE (a view of) the cache *)
+                    | Some g, OpLonlats _ _ _, Some c => if alias then Some (g c) else st'   (* alias: the caller's arrays ARE (a view of) the cache *)
                     | _, _, _ => st'
                     end in
         (st'', o)
     end.
-  Fixpoint c01_mrun (st : option (list (list (T * T)))) (ms : list c01_mop) : list (list (list (T * T))) :=
+  Fixpoint c01_mrun (alias : bool) (st : option (list (list (T * T)))) (ms : list c01_mop) : list (list (list (T * T))) :=
     match ms with
     | [] => []
-    | m :: rest => let '(st', o) := c01_mstep st m in o :: c01_mrun st' rest
+    | m :: rest => let '(st', o) := c01_mstep alias st m in o :: c01_mrun alias st' rest
     end.
 
   (* the 1-D projection vectors: AreaDefinition keeps NO memo of them ([memo = false]); [memo = true] is the variant that
